@@ -215,7 +215,7 @@ func c08Anonymise(c *Ctx, pq *ssa.Function) {
 	// the anonymiser call: dynamic call whose function value is the result of (*aghnet.IPMut).Load
 	var anonCall *ssa.Call
 	for _, call := range core.Calls(pq) {
-		if call.Common.StaticCallee() != nil || call.Common.IsInvoke() {
+		if core.Callee(call.Common) != nil || call.Common.IsInvoke() {
 			continue
 		}
 		if core.IsCallResult(call.Common.Value, -1, "(*aghnet.IPMut).Load") {
@@ -579,7 +579,7 @@ func c08ClientCache(c *Ctx) {
 	n := 0
 	bad := ""
 	for _, call := range core.Calls(sf) {
-		callee := call.Common.StaticCallee()
+		callee := core.Callee(call.Common)
 		if callee == nil || core.PkgOf(callee) != "querylog" {
 			continue
 		}
